@@ -121,11 +121,24 @@ def check_mixed_classes(rep):
              ('Id(n.l) @ f >> h @ h', lambda: rigid.Id(n.l) @ rigid.Box('a', rigid.Ty(), n) >> h @ h),
              # plain (z = 0) rigid wires do meet plain monoidal boxes
              ('Box(x -> n) >> h', lambda: rigid.Box('f0', rigid.Ty('x'), n) >> h)]
+    # wires of a PRO next to wires with other integer names (dimensions, Ty(2)): tensor, slices and composites either are
+    # refused or keep every wire as it is
+    from discopy import tensor as _tensor
+    from discopy.quantum import zx as _zx
+    P1, P2 = monoidal.PRO(1), monoidal.PRO(2)
+    fp, g2 = monoidal.Box('fp', P1, P2), monoidal.Box('g2', monoidal.Ty(2), monoidal.Ty(2, 3))
+    tv = _tensor.Box('v', _tensor.Dim(2), _tensor.Dim(3), [0] * 6)
+    cases += [('PRO box @ Ty(2) box', lambda: fp @ g2), ('Ty(2) box @ PRO box', lambda: g2 @ fp),
+              ('PRO box @ Ty(2) box >> Id', lambda: (fp @ g2) >> monoidal.Id((fp @ g2).cod)),
+              ('Id(PRO(1)) @ Id(Ty(2))', lambda: monoidal.Id(P1) @ monoidal.Id(monoidal.Ty(2))),
+              ('(PRO(2) @ Ty(2, 3))[1:]', lambda: monoidal.Id(P2 @ monoidal.Ty(2, 3))[0:0] @ monoidal.Id((P2 @ monoidal.Ty(2, 3))[1:])),
+              ('zx.Z(1, 2) @ tensor.Box', lambda: _zx.Z(1, 2, .25) @ tv), ('rigid.PRO box @ rigid.Ty(2) box',
+               lambda: rigid.Box('fp', rigid.PRO(1), rigid.PRO(2)) @ rigid.Box('g2', rigid.Ty(2), rigid.Ty(2, 3)))]
     for what, thunk in cases:
         rep.case(('mixed', what))
         got = common.outcome(thunk)
         if got[0] == 'exc':
-            if got[1] is not AxiomError:
+            if got[1] not in (AxiomError, TypeError):
                 rep.fail('C01:mixed.refuses', 'raised %r' % (got[1],), what)
             continue
         why = common.wf_reason(got[1])
